@@ -1182,7 +1182,7 @@ func runC01(c *Ctx) {
 	}
 	// ReadFrom returns the payload and source of the received chunk
 	o = c.Obl("R8r", fname(readFrom), "ReadFrom returns the received chunk's payload (copied) and source address, and discards only datagrams from another peer on a connected socket", 1)
-	for _, in := range findInstrs(readFrom, func(in ssa.Instruction) bool { return isSuccessReturnOf(in, 2) || isCall(in, "builtin.copy") }) {
+	for _, in := range findU(readFrom, func(in ssa.Instruction) bool { return isSuccessReturnOf(in, 2) || isCall(in, "builtin.copy") }) {
 		o.Site(in.Pos(), "%s", in.String())
 	}
 	okCopyR := false
